@@ -187,7 +187,8 @@ class LibSession:
             return {"cf": canon_closed_form(moment), "exact": bool(exact), "solver": solver_kind}
         if name == "invariants":
             from invariants import InvariantIdeal
-            cfs = {f"v{i}": self.closed[g["monom"]] for i, g in enumerate(spec["goals"]) if g["monom"] in self.closed}
+            # indeterminates are named after the goal monomials, so that a permuted goal list denotes the same ideal
+            cfs = {"g_" + re.sub(r"[^A-Za-z0-9]", "_", g["monom"]): self.closed[g["monom"]] for g in spec["goals"] if g["monom"] in self.closed}
             basis = InvariantIdeal(cfs).compute_basis()
             return {"basis": sorted(str(b) for b in basis)}
         raise ValueError(name)
